@@ -5,6 +5,8 @@ import (
 	"encoding/json"
 	"fmt"
 	"math/big"
+	"strconv"
+	"strings"
 	"sync"
 	"time"
 
@@ -54,6 +56,26 @@ var moduli = map[string]string{
 
 var modOrder = []string{"p256", "2^255-19", "2^256-189", "65537", "251", "3", "2", "2^31-1", "2^32+15", "2^61-1", "2^64-59", "2^64+13", "2^127-1", "2^128+51", "2^192-237", "2^256-1"}
 
+// modulus resolves a modulus name: a table entry, or "bits:k" = the smallest prime with exactly k bits.
+func modulus(name string) *big.Int {
+	if strings.HasPrefix(name, "bits:") {
+		k, _ := strconv.Atoi(name[5:])
+		p := new(big.Int).Lsh(big.NewInt(1), uint(k-1))
+		if k > 2 {
+			p.Add(p, big.NewInt(1))
+		}
+		for !p.ProbablyPrime(32) {
+			p.Add(p, big.NewInt(2))
+			if k <= 2 {
+				p.Sub(p, big.NewInt(1))
+			}
+		}
+		return p
+	}
+	p, _ := new(big.Int).SetString(moduli[name], 10)
+	return p
+}
+
 const nClasses = 8
 
 func element(class int, p *big.Int, rd *drbg.Reader) *big.Int {
@@ -88,7 +110,7 @@ func mkOT(kind string, rd *drbg.Reader) ot.OT {
 }
 
 func runVOLE(ctx *runner.Ctx, k cs) {
-	p, _ := new(big.Int).SetString(moduli[k.Modulus], 10)
+	p := modulus(k.Modulus)
 	a, b := xport.NewPair(0)
 	rdv := drbg.New(k.Seed + 5)
 	type vec struct{ x, y, r, u []*big.Int }
@@ -291,6 +313,30 @@ func work(ctx *runner.Ctx) {
 		}
 		cases = append(cases, cs{Kind: "vole", Modulus: mod, Lens: []int{70}, OT: "co", Seed: seed})
 	}
+	// one prime of every bit length (quick: a stride and all lengths that are 0, 1 or 7 modulo 8)
+	for k := 2; k <= 256; k++ {
+		if ctx.Quick() && k%8 > 1 && k%8 != 7 && k%5 != 0 {
+			continue
+		}
+		mod := fmt.Sprintf("bits:%d", k)
+		for _, m := range []int{1, 9, 65} {
+			if ctx.Quick() && m == 65 && k%8 > 1 {
+				continue
+			}
+			rounds := (nClasses*nClasses + m - 1) / m
+			if rounds > 8 {
+				rounds = 8
+			}
+			for r := 0; r < rounds; r++ {
+				off := r * m
+				if m < 8 {
+					off = r * 9
+				}
+				cases = append(cases, cs{Kind: "vole", Modulus: mod, Lens: []int{m}, Offset: off, OT: "ideal", Seed: seed})
+			}
+		}
+		cases = append(cases, cs{Kind: "vole", Modulus: mod, Lens: []int{3, 70, 2}, OT: "ideal", Seed: seed})
+	}
 	for a := uint(0); a < 2; a++ {
 		for b := uint(0); b < 2; b++ {
 			for _, o := range []string{"ideal", "co"} {
@@ -345,7 +391,7 @@ func main() {
 	runner.Main(runner.Spec{
 		ID:    "C20",
 		Level: "exploration",
-		Rule: "VOLE: 16 moduli (2, 3, 251, 65537, 2^31-1, 2^32+15, 2^61-1, 2^64-59, 2^64+13, 2^127-1, 2^128+51, 2^192-237, 2^255-19, P-256, 2^256-189, 2^256-1) x every length 1..40 and chunk-boundary lengths up to 1025 (thorough 2000) x element classes {0,1,2,p-1,p-2,p/2,random,random} scheduled so every (x-class,y-class) pair occurs; multi-call histories; ideal and Chou-Orlandi base OT. BMR: FxSend/FxReceive for all (a,b) x 64 seeds; FxkSend/FxkReceive for b in {0,1} x s in {0, all-ones, every single bit, patterns}. " +
+		Rule: "VOLE: one prime of every bit length 2..256 (quick: the lengths that are 0, 1 or 7 modulo 8 and every fifth) with vector lengths 1, 9, 65 and a 3-call history, and 16 named moduli (2, 3, 251, 65537, 2^31-1, 2^32+15, 2^61-1, 2^64-59, 2^64+13, 2^127-1, 2^128+51, 2^192-237, 2^255-19, P-256, 2^256-189, 2^256-1) x every length 1..40 and chunk-boundary lengths up to 1025 (thorough 2000) x element classes {0,1,2,p-1,p-2,p/2,random,random} scheduled so every (x-class,y-class) pair occurs; multi-call histories; ideal and Chou-Orlandi base OT. BMR: FxSend/FxReceive for all (a,b) x 64 seeds; FxkSend/FxkReceive for b in {0,1} x s in {0, all-ones, every single bit, patterns}. " +
 			"distinct_nontrivial = distinct (modulus, x-class, y-class, m mod 512, chunks) for VOLE plus distinct (a,b,r)/(b,s) for BMR",
 		Assumptions: []string{
 			"VOLE sessions run free on real goroutines over an in-memory link (two-party message passing is schedule-independent); a 120 s watchdog only reports a hang",
